@@ -10,6 +10,7 @@
        `free_offset` (Sync1 is taken whenever data is dirty), into the slot `next_root`,
        with generation + 1, heads = the head-set record just appended, free = the frontier;
      * the second fdatasync follows, slots alternate, also across close/open;
+     * on open a slot without a valid root is zeroed and synced before any other write;
      * when a committing API call returns no commit is half-done.
 
    All invariants of LinearFile (DurableRootsSound, CleanReopen, NothingNewerVisible,
@@ -36,7 +37,7 @@ Match ==
             /\ \E c \in BOOLEAN : AppendGrow(Rec[idx + 2].len, c)
             /\ Ev.len = cur'.want
     [] Ev.ev = "fsync" -> Fsync
-    [] Ev.ev = "sync" -> Sync1 \/ Sync2
+    [] Ev.ev = "sync" -> Sync1 \/ Sync2 \/ ScrubSync
     [] Ev.ev = "write" ->
          \/ /\ pc = "idle" /\ Ev.n = HdrLen /\ Ev.off = mem.free
             /\ \E c \in BOOLEAN : AppendHdr(Ev.len, c)
@@ -47,11 +48,13 @@ Match ==
          \/ /\ Ev.n = HdrLen
             /\ RootHdr(Ev.len)
             /\ Ev.off = cur'.slot
+         \/ /\ pc = "scrub" /\ Ev.n = ScrubLen /\ Ev.off = cur.slot
+            /\ Scrub
          \/ /\ pc = "rootbody" /\ Ev.n = cur.n /\ Ev.off = cur.slot + HdrLen
             /\ Ev.gen = mem.gen /\ Ev.heads = mem.heads /\ Ev.free = mem.free
             /\ RootBody
     [] Ev.ev = "close" -> Close
-    [] Ev.ev = "open" -> Open /\ pc' = "idle"
+    [] Ev.ev = "open" -> Open /\ pc' # "failed"
     [] Ev.ev = "ret" -> pc = "idle" /\ inprog = 0 /\ done # <<>> /\ UNCHANGED vars
     [] OTHER -> FALSE
 
